@@ -51,6 +51,10 @@ def builder_stubs(cx, engine):
         st.notes["peeked"] = None
         return S.mk_result(engine, is_err, Blob("name"), Opaque("Error", "from:symbol", {"kind": "callee"}))
 
+    def h_name_token(engine, st, fr, callee, argv, m):
+        st.events.append(("name_token", argv[1:]))
+        return Blob("token")
+
     def h_eat(engine, st, fr, callee, argv, m):
         st.events.append(("eat", st.notes.get("peeked") is not None))
         st.notes["peeked"] = None
@@ -90,6 +94,7 @@ def builder_stubs(cx, engine):
         (re.compile(P + r"parse_whitespace$"), h_ws),
         (re.compile(P + r"(expect_value|expect_datum)$"), h_expect),
         (re.compile(P + r"parse_symbol_suffix$"), h_symsuffix),
+        (re.compile(P + r"name_token$"), h_name_token),
         (re.compile(P + r"eat_char$"), h_eat),
         (re.compile(P + r"peek_or_null$"), h_peek_or_null),
         (re.compile(P + r"peek_error$"), h_peek_error),
@@ -316,6 +321,14 @@ def claim_list_protocol(cx, res, kf):
                 if "symsuffix" in kinds:
                     seen["dotsym"] += 1
                     res.must_be_unsat(pc + [z3.Not(z3.And(z3.Not(pk[2]), z3.Not(delim)))], "%s: `.name` symbol branch taken at a delimiter" % fname)
+                    if out[0] == "loop" and "name_token" not in kinds[kinds.index("symsuffix"):]:
+                        # C08: what a name reads as must not depend on its position or on its first byte
+                        from . import confirm as CF
+                        v = {"what": "%s: a name starting with `.` inside a list is stored as a plain symbol without the name classification "
+                             "every other name gets (`.a:` is a keyword at top level but a symbol in `(.a:)` when name: keywords are enabled)" % fname,
+                             "replayed": None}
+                        v.update(CF.confirm(("tokens",), res)(None))
+                        res.violations.append(v)
                     continue
                 continue
             if "expect" in kinds and out[0] in ("loop", "err"):
